@@ -245,6 +245,24 @@ pub fn replay_ptg8(args: &Args) -> i32 {
             2 => FRes::Err(7),
             _ => FRes::Str,
         };
+        let shared = b["shared"] == json!(true);
+        let mut shr: Option<Rec> = None;
+        if shared {
+            // FORMULA holds PtgExp(row, col of the range's first cell); the expression is in SHRFMLA
+            let mut d = Vec::new();
+            d.extend_from_slice(&r1.to_le_bytes());
+            d.extend_from_slice(&r1.to_le_bytes());
+            d.push(c1 as u8);
+            d.push(c1 as u8);
+            d.push(0);
+            d.push(1);
+            d.extend_from_slice(&(rgce.len() as u16).to_le_bytes());
+            d.extend_from_slice(&rgce);
+            shr = Some(Rec::Raw { typ: 0x04BC, data: d });
+            rgce = vec![0x01];
+            rgce.extend_from_slice(&r1.to_le_bytes());
+            rgce.extend_from_slice(&c1.to_le_bytes());
+        }
         let mut cells = vec![(r1, c1, Rec::FormulaRgce { r: r1, c: c1, xf: 0, res: res.clone(), rgce }), (r2, c2, Rec::FormulaRgce { r: r2, c: c2, xf: 0, res: FRes::Num(1.0), rgce: vec![0x1E, 7, 0] })];
         // value cells that are not formulas: before, between and after
         if r1 < 60000 {
@@ -256,7 +274,13 @@ pub fn replay_ptg8(args: &Args) -> i32 {
         let mut recs = Vec::new();
         for (_, _, r) in cells {
             let is_str = matches!(&r, Rec::FormulaRgce { res: FRes::Str, .. });
+            let is_main = matches!(&r, Rec::FormulaRgce { r: rr, c: cc, .. } if *rr == r1 && *cc == c1);
             recs.push(r);
+            if is_main {
+                if let Some(s) = shr.take() {
+                    recs.push(s);
+                }
+            }
             if is_str {
                 recs.push(Rec::StringRec { s: XlStr::new("cached") });
             }
@@ -310,6 +334,8 @@ pub fn replay_ptg8(args: &Args) -> i32 {
                     if has_space { a.replace([' ', '\r'], "") == g.replace([' ', '\r'], "") } else { &a == g }
                 }
                 (_, Some(_), Some(g)) => g.starts_with("Unrecognised formula"),
+                // the as-is text is empty: the cell shows no formula
+                (Some(t), _, None) => render(t, true).is_empty(),
                 _ => false,
             };
             let key = mismatch_key(&b["dev"], is_asis);
